@@ -193,7 +193,8 @@ def classify(direction, fam, schema, value, root, dialect, loc) -> str:
     if "numeric-exclusive" in feats and ("than maximum" in fam or "than minimum" in fam):
         return "negative-valid:numeric-exclusive-bound"
     if "pattern+length" in feats and ("Length" in fam or "pattern" in fam):
-        return "negative-valid:pattern+length-through-search-semantics"
+        which = "pattern-negation" if "pattern" in fam else "min-length-negation" if "smaller" in fam.lower() else "max-length-negation" if "larger" in fam.lower() else "length"
+        return "negative-valid:pattern+length-through-search-semantics:" + which
     if "format" in fam:
         return "negative-valid:format-negation-is-valid"
     if "zero-bound" in feats:
@@ -456,6 +457,142 @@ def enum_numeric(tier, shard, nshards):
                 yield {"plan": plan, "modes": modes}
 
 
+PATTERN_BODIES = {  # body -> (a shortest matching string, can the body itself be stretched?)
+    r"\d": ("0", False), "[0-9]": ("0", False), "[a-z]": ("a", False), r"\w": ("0", False), "a": ("a", False), "0": ("0", False),
+    "[A-Za-z0-9]": ("0", False), r"\d{2}": ("00", False), "ab": ("ab", False), "(a|0)": ("0", False), ".": ("0", False),
+    r"\d+": ("0", True), r"[a-c]?\d": ("0", False), "x-": ("x-", False),
+}
+
+
+def enum_strings(tier, shard, nshards):
+    """Bounded exhaustive slice: small patterns x anchoring x minLength x maxLength, in the body and in a query / path
+    parameter, modes {N}, {P,N}, {P}.  Unanchored patterns whose own width is smaller than minLength are the region
+    where "does not match" and "does not match at position 0" differ."""
+    import itertools
+
+    count = 0
+    for (body, (base, stretch)), start, end, minl, maxl_kind in itertools.product(PATTERN_BODIES.items(), ["", "^"], ["", "$"], [None, 1, 2, 3, 8], [None, "=min", "+2"]):
+        if maxl_kind is not None and minl is None:
+            continue
+        maxl = None if maxl_kind is None else minl if maxl_kind == "=min" else minl + 2
+        need = max(len(base), minl or 0)
+        pad = need - len(base)
+        if pad and stretch:
+            witness = base + "0" * pad
+        elif pad and not start:
+            witness = "q" * pad + base
+        elif pad and not end:
+            witness = base + "q" * pad
+        elif pad:
+            continue  # anchored on both sides and too narrow: unsatisfiable
+        else:
+            witness = base
+        if maxl is not None and len(witness) > maxl:
+            continue
+        sch = {"type": "string", "pattern": start + body + end}
+        if minl is not None:
+            sch["minLength"] = minl
+        if maxl is not None:
+            sch["maxLength"] = maxl
+        count += 1
+        if count % nshards != shard:
+            continue
+        for loc in ("body", "query", "path"):
+            if loc == "body":
+                plan = {"dialect": "3.0", "method": "post", "path": "/t", "params": [], "bodies": [{"media_type": "application/json", "schema": sch, "witness": witness}], "body_required": True, "schemas": {}, "security": None, "access": "lookup"}
+            else:
+                plan = {"dialect": "3.0", "method": "post", "path": "/t/{p}" if loc == "path" else "/t", "params": [{"name": "p", "in": loc, "required": True, "schema": sch, "witness": witness, "level": "operation", "ref": False}], "bodies": [], "body_required": True, "schemas": {}, "security": None, "access": "lookup"}
+            for modes in (["negative"], ["positive", "negative"], ["positive"]):
+                yield {"plan": plan, "modes": modes}
+
+
+# ---- several parameters in one operation ------------------------------------------------------------------------
+
+COMBO_SCHEMAS = [
+    ({"type": "integer", "minimum": 1, "maximum": 9}, 5), ({"type": "integer", "minimum": 0}, 3), ({"type": "integer", "enum": [2, 4]}, 2), ({"type": "boolean"}, True),
+    ({"type": "integer", "maximum": -1}, -4), ({"type": "number", "minimum": 0.5, "maximum": 2}, 1.5), ({"type": "integer", "multipleOf": 5}, 10),
+]
+
+
+@st.composite
+def combo_case(draw):
+    n = draw(st.integers(2, 5))
+    main = draw(st.sampled_from(["query", "query", "header", "cookie"]))
+    params = []
+    for i in range(n):
+        sch, wit = draw(st.sampled_from(COMBO_SCHEMAS))
+        loc = main if draw(st.integers(0, 3)) else draw(st.sampled_from(["query", "header", "cookie"]))
+        params.append({"name": f"p{i}", "in": loc, "required": draw(st.integers(0, 3)) == 0, "schema": dict(sch), "witness": wit, "level": "operation", "ref": False})
+    path = "/t"
+    if draw(st.booleans()):
+        # a path value that needs quoting: every case built around the template must still carry a member of the enum
+        params.append({"name": "seg", "in": "path", "required": True, "schema": {"type": "string", "enum": [draw(st.sampled_from(["a b", "é", "x+y", "50%", "plain"]))]}, "witness": None, "level": "operation", "ref": False})
+        params[-1]["witness"] = params[-1]["schema"]["enum"][0]
+        path = "/t/{seg}"
+    plan = {"dialect": draw(st.sampled_from(["3.0", "3.1"])), "method": "post", "path": path, "params": params, "bodies": [], "body_required": True, "schemas": {}, "security": None, "access": "lookup"}
+    return {"plan": plan, "modes": draw(st.sampled_from(MODESETS))}
+
+
+def check_combos(ctx: Ctx, inp) -> None:
+    """Case-level label rules for operations with several parameters (the combinations steps of the case generator)."""
+    from schemathesis.generation import GenerationMode
+    from schemathesis.generation.hypothesis.builder import _iter_coverage_cases
+
+    plan, mode_names = inp["plan"], inp["modes"]
+    dialect, root = plan["dialect"], gd.root_for(plan)
+    try:
+        schema, operation = c01.load_operation(plan)
+        cases = list(_iter_coverage_cases(operation, _modes(mode_names), None))
+    except Exception as exc:  # noqa: BLE001
+        ctx.case(classes=["case-generation-exception"])
+        ctx.disagree("combo:exception:" + type(exc).__name__, f"_iter_coverage_cases raised {exc!r}"[:300], input=inp)
+        return
+    optional_per_loc = {}
+    for p in plan["params"]:
+        if not p["required"]:
+            optional_per_loc[p["in"]] = optional_per_loc.get(p["in"], 0) + 1
+    shape = f"optional-in-one-location={min(max(optional_per_loc.values(), default=0), 3)}"
+    for case in cases:
+        meta = case.meta
+        desc = meta.phase.data.description
+        mode = meta.generation.mode
+        comps = {k.name: v.mode for k, v in meta.components.items()}
+        summary = c01.case_summary(case)
+        mode_name = "positive" if mode == GenerationMode.POSITIVE else "negative"
+        ctx.case(nontrivial=[h(inp), summary, desc], classes=[f"combo:{mode_name}", shape, f"modes={'+'.join(mode_names)}"], sample={"params": [(p["name"], p["in"], p["required"], p["schema"]) for p in plan["params"]], "modes": mode_names, "case": summary, "description": desc, "label": mode.value})
+        if mode_name not in mode_names:
+            ctx.disagree(f"case-mode-not-requested:{mode_name}", f"{mode_name} case ({desc}) although only {mode_names} were requested", input=inp, case=summary)
+            continue
+        special = desc.startswith(("Missing ", "Duplicate ", "Unspecified HTTP method"))
+        any_neg = any(m == GenerationMode.NEGATIVE for m in comps.values())
+        if (mode == GenerationMode.NEGATIVE) != (any_neg or special):
+            ctx.disagree("case-label-differs-from-its-parts", f"case labelled {mode.value} but components {({k: v.value for k, v in comps.items()})} ({desc})", input=inp, case=summary)
+            continue
+        if special:
+            continue
+        verdicts = {}
+        missing_required = []
+        for p in plan["params"]:
+            cont = c01.container_of(case, p["in"]) or {}
+            key = next((k for k in cont if k.lower() == p["name"].lower()), None)
+            if key is None:
+                if p["required"]:
+                    missing_required.append(p["name"])
+                continue
+            verdicts[p["name"]] = c01.lenient_valid(p["schema"], cont[key], dialect=dialect, root=root, loc=p["in"])
+        if mode == GenerationMode.POSITIVE:
+            bad = [n for n, v in verdicts.items() if v is False]
+            if bad or missing_required:
+                ctx.disagree("combo:positive-case-with-an-invalid-or-missing-parameter", f"positive case ({desc}): parameters {bad} violate their schemas under every reading, required {missing_required} missing; {summary}", input=inp, case=summary)
+        else:
+            declared = {(p["in"], p["name"].lower()) for p in plan["params"]}
+            undeclared = [(loc_, k) for loc_ in ("query", "header", "cookie", "path") for k in (c01.container_of(case, loc_) or {}) if (loc_, k.lower()) not in declared]
+            if undeclared:
+                continue  # a parameter the operation does not declare: the container as a whole is the invalid part
+            if verdicts and all(v is True for v in verdicts.values()) and not missing_required:
+                ctx.disagree("combo:negative-case-with-only-valid-parameters", f"negative case ({desc}): every parameter conforms and none is missing; {summary}", input=inp, case=summary)
+
+
 def check_both(ctx: Ctx, inp) -> None:
     check_values(ctx, inp)
     check_cases(ctx, inp)
@@ -463,15 +600,17 @@ def check_both(ctx: Ctx, inp) -> None:
 
 SUBS = [
     Sub("numeric_enum", fn=check_both, enumerate=enum_numeric, quick=(16, 0), thorough=(16, 0), exhaustive=True, timeout_quick=600, timeout_thorough=3400),
+    Sub("string_enum", fn=check_both, enumerate=enum_strings, quick=(16, 0), thorough=(16, 0), exhaustive=True, timeout_quick=600, timeout_thorough=3400),
+    Sub("combos", fn=check_combos, strategy=combo_case, quick=(16, 60), thorough=(16, 2500), timeout_quick=600, timeout_thorough=3400),
     Sub("values", fn=check_values, strategy=schema_case, quick=(16, 250), thorough=(16, 8000), timeout_quick=600, timeout_thorough=3400),
     Sub("cases", fn=check_cases, strategy=schema_case, quick=(16, 120), thorough=(16, 4000), timeout_quick=600, timeout_thorough=3400),
 ]
-FLOOR = {"values": 3000, "cases": 2000, "numeric_enum": 5000}
-BOUNDS = {"numeric_enum": "type in {integer, number} x minimum in {-,-7,-1,0,1,6} x maximum in {-,-7,-5,-1,0,1,8} x exclusive flags x multipleOf in {-,1,2,3,5} x dialect {3.0 boolean form, 3.1 numeric form}, satisfiable combinations only, x location {body, query} x modes {P},{P,N}"}
+FLOOR = {"values": 3000, "cases": 2000, "numeric_enum": 5000, "string_enum": 3000, "combos": 3000}
+BOUNDS = {"string_enum": "pattern body in {\\d,[0-9],[a-z],\\w,a,0,[A-Za-z0-9],\\d{2},ab,(a|0),.,\\d+,[a-c]?\\d,x-} x start in {-,^} x end in {-,$} x minLength in {-,1,2,3,8} x maxLength in {-,=min,min+2}, satisfiable combinations only, x location {body, query, path} x modes {N},{P,N},{P}", "numeric_enum": "type in {integer, number} x minimum in {-,-7,-1,0,1,6} x maximum in {-,-7,-5,-1,0,1,8} x exclusive flags x multipleOf in {-,1,2,3,5} x dialect {3.0 boolean form, 3.1 numeric form}, satisfiable combinations only, x location {body, query} x modes {P},{P,N}"}
 
 MANIFEST = {
     "category": "exploration",
     "technique": "Hypothesis-generated schemas x location x mode sets; every boundary value and coverage case judged by an independent OpenAPI->JSON-Schema oracle and label-consistency rules",
-    "text": "Witness-first schemas over the keyword set of the boundary generator are wrapped in a one-input operation loaded by Schemathesis; every value of cover_schema_iter (fed exactly the schema the engine feeds it) and every case of _iter_coverage_cases is checked: positive => valid, negative => invalid (raw for bodies, canonical wire readings for parameters), only requested modes, case label == (some part negative or missing/duplicate/unspecified-method), special cases really lack / repeat the parameter / use an undocumented method; author examples and defaults exempt. Root causes already present on the tree are recorded as known findings by explanation-based signatures. Exploration only.",
+    "text": "Witness-first schemas over the keyword set of the boundary generator are wrapped in a one-input operation loaded by Schemathesis; every value of cover_schema_iter (fed exactly the schema the engine feeds it) and every case of _iter_coverage_cases is checked: positive => valid, negative => invalid (raw for bodies, canonical wire readings for parameters), only requested modes, case label == (some part negative or missing/duplicate/unspecified-method), special cases really lack / repeat the parameter / use an undocumented method; author examples and defaults exempt. Root causes already present on the tree are recorded as known findings by explanation-based signatures. Two bounded exhaustive slices (numeric bounds; small patterns x anchoring x length bounds) and a sub-check over operations with 2-5 parameters (case-level label rules for the combination steps, template values included) complete it. Exploration only.",
     "note": "Trusts jsonschema and Hypothesis. Description-to-keyword agreement is measured (class counter) but not asserted beyond valid/invalid. One input per operation so that a label can be attributed.",
 }
